@@ -150,7 +150,9 @@ C13_Lost     == Only("tumbling_lost") = {} /\ {v \in Only("sliding_cover") : v.c
 C13_Dup      == Only("tumbling_dup") = {} /\ {v \in Only("sliding_cover") : v.cause = "too_many"} = {}
 C13_Early    == Only("fired_early") = {}
 C13_Late     == Only("fired_late") = {}
-C13_All == LET v == Viol IN IF v = {} THEN TRUE ELSE PrintT(<<"MODELVIOL", v>>) /\ FALSE
+(* the predicates are monotone in the history (a violation of a prefix stays one), every behaviour
+   can be completed within the bounds: judging the complete behaviours judges all prefixes *)
+C13_All == done => LET v == Viol IN IF v = {} THEN TRUE ELSE PrintT(<<"MODELVIOL", v>>) /\ FALSE
 (* C06 at the operator output: fails on the code as written (F4) *)
 C06_LateResult == LateResultViol(inp, outs) = {}
 
